@@ -38,6 +38,13 @@ HEADS_XY = [
     ("new", "Made", (X, Y), ()),
     ("new", "Made", (A(X, "p"), Y), (("c", X),)),
     ("new", "Made2", (), (("a", ("c", X, "get_p", ())), ("b", A(Y, "ref")))),
+    # positional arguments of a class with an INHERITED keyword-only field that is declared before the positional ones, and
+    # of a dataclass whose hand-written __init__ takes its parameters in another order than the fields are declared
+    ("new", "Part", (A(X, "p"), Y), ()),
+    ("new", "Part", (X, Y), (("world", A(X, "q")),)),
+    ("new", "Part", (X,), (("v", A(Y, "p")),)),
+    ("new", "Rev", (X, Y), ()),
+    ("new", "Rev", (A(X, "p"),), (("k", Y),)),
 ]
 HEADS_X = [
     ("new", "Made", (), (("a", X),)),
@@ -47,6 +54,8 @@ HEADS_X = [
     ("new", "Made", (A(X, "p"), A(X, "q"), X), ()),
     ("new", "Made2", (), (("a", A(X, "s")), ("b", A(A(X, "ref"), "p")))),
     ("new", "MadeB", (), (("a", X), ("b", A(X, "flag")))),      # the constructed instance is falsy when x.flag is
+    ("new", "Part", (A(X, "p"), X), ()),
+    ("new", "Rev", (X, A(X, "q")), ()),
 ]
 
 
